@@ -29,7 +29,7 @@ From RtcmGen Require Import GenMessages.
 From RtcmProofs Require Import ListZ SigProofs MsmProofs MsmMasks SortProofs MsmRows DecodeFinite MsmDecode.
 From RtcmModel Require Import Frame Message.
 From RtcmGen Require Import GenMessages.
-From RtcmProofs Require Import BuilderProofs SizeProofs BuildProofs RoundTrip RoundTripFrame EncodeTotalAll EncodeFrameAll Ext2Special RoundTripAll DecodeTotal.
+From RtcmProofs Require Import BuilderProofs SizeProofs BuildProofs RoundTrip RoundTripFrame EncodeTotalAll EncodeFrameAll Ext2Special RoundTripAll DecodeTotal MsmTotal.
 Import ListNotations.
 Open Scope Z_scope.
 
@@ -181,19 +181,19 @@ Proof. vm_compute. reflexivity. Qed.
 Lemma numbers_fit10 : forallb (fun m => (0 <=? fst m) && (fst m <? 4096)) messages = true.
 Proof. vm_compute. reflexivity. Qed.
 
-(** every MSM message with a non-empty data segment that build_message accepts, from any builder history:
+(** every MSM message that build_message accepts (empty data segment included), from any builder history:
     the frame is accepted by MessageFrame::new, carries the message's number, and get_message returns the
     typed message of that number (never Corrupt) with a header of the same shape and as many satellite rows
     and signal rows as were given *)
 Theorem C10_frame_decodes : forall bld n lay hd g a b hdr sats sigs fr,
   reach sig_table ssr_table_1059 ssr_table_1065 SAT_CAP_1059 SAT_CAP_1065 messages bld ->
   lookup n messages = Some lay -> tail_form lay = Some (hd, FMsm g a b) ->
-  snd (t_build bld (MTyped n (VStruct (hdr ++ [VStruct [VList sats; VList sigs]])))) = Ok fr -> ~ (sats = [] /\ sigs = []) ->
+  snd (t_build bld (MTyped n (VStruct (hdr ++ [VStruct [VList sats; VList sigs]])))) = Ok fr ->
   exists f hdr' sats' sigs', frame_new fr = Ok f /\ fr_number f = Some n /\
     t_from_frame f = Ok (MTyped n (VStruct (hdr' ++ [VStruct [VList sats'; VList sigs']]))) /\
     Forall2 shape hdr hdr' /\ length sats' = length sats /\ length sigs' = length sigs.
 Proof.
-  intros bld n lay hd g a b hdr sats sigs fr Hreach Hlk Ht H Hne.
+  intros bld n lay hd g a b hdr sats sigs fr Hreach Hlk Ht H.
   pose proof (lookup_In messages n lay Hlk) as Hin.
   pose proof C10_msm_layouts_tail as Hc. rewrite forallb_forall in Hc. specialize (Hc _ Hin). cbn [snd] in Hc. rewrite Ht in Hc.
   apply andb_true_iff in Hc. destruct Hc as [Hc Hfb]. apply andb_true_iff in Hc. destruct Hc as [Hc Hfa]. apply andb_true_iff in Hc. destruct Hc as [Hp Hcn].
@@ -202,18 +202,22 @@ Proof.
   unfold build_fresh, build in H. cbn [builder_new b_has_run b_data] in H. change (211 :: repeat 0 1028) with fresh_data in H.
   destruct (build_on sig_table ssr_table_1059 ssr_table_1065 SAT_CAP_1059 SAT_CAP_1065 messages fresh_data _) as [[fr0 d']|e|] eqn:Hb; cbn [snd] in H; try discriminate.
   inversion H; subst fr0. clear H.
-  set (Q := fun v : val => exists s1 s2, v = VStruct [VList s1; VList s2] /\ ~ (s1 = [] /\ s2 = [])).
+  set (Q := fun v : val => exists s1 s2, v = VStruct [VList s1; VList s2]).
   set (R := fun v v' : val => exists s1 s2 s1' s2', v = VStruct [VList s1; VList s2] /\ v' = VStruct [VList s1'; VList s2'] /\ length s1' = length s1 /\ length s2' = length s2).
   destruct (tail_build_decodes sig_table ssr_table_1059 ssr_table_1065 SAT_CAP_1059 SAT_CAP_1065 messages (proj1 caps_nonneg10) (proj2 caps_nonneg10) layouts_fit10 numbers_fit10
               (FMsm g a b) Q R) with (n := n) (lay := lay) (hd := hd) (vs1 := hdr) (x := VStruct [VList sats; VList sigs]) (fr := fr) (d' := d')
     as [f [hdr' [x' [Hn [Hnum [Hfrom [Sh [s1 [s2 [s1' [s2' [E1 [E2 [L1 L2]]]]]]]]]]]]]]; try assumption.
   - apply special_frame. cbn [special_ok]. rewrite Hfa, Hfb. replace (SigProofs.table_ok 1 32 (sig_table g)) with true by (destruct g; vm_compute; reflexivity). reflexivity.
-  - intros d o v d1 o1 Hbd Ho E [s1 [s2 [-> Hne2]]].
-    destruct (C10_segment_decodes g a b d o s1 s2 d1 o1 Hfa Hfb Hbd Ho E Hne2) as [s1' [s2' [D [L1 L2]]]].
-    eexists. split; [exact D|]. exists s1, s2, s1', s2'. repeat split; assumption.
+  - intros d o v d1 o1 Hbd Ho E [s1 [s2 ->]].
+    assert (Hcase : (s1 = [] /\ s2 = []) \/ ~ (s1 = [] /\ s2 = [])) by (destruct s1; [destruct s2; [left; split; reflexivity|right; intros [_ X]; discriminate X]|right; intros [X _]; discriminate X]).
+    destruct Hcase as [[-> ->]|Hne2].
+    + cbn [encode_frag] in E. pose proof (msm_empty_decodes (sig_table g) a b d o d1 o1 Hbd Ho E) as D.
+      eexists. split; [cbn [decode_frag]; exact D|]. exists [], [], [], []. repeat split; reflexivity.
+    + destruct (C10_segment_decodes g a b d o s1 s2 d1 o1 Hfa Hfb Hbd Ho E Hne2) as [s1' [s2' [D [L1 L2]]]].
+      eexists. split; [exact D|]. exists s1, s2, s1', s2'. repeat split; assumption.
   - cbn [decode_frag]. apply msm_decode_ext2; apply fok_dec; assumption.
   - intros d off v off' _ _ E. cbn [decode_frag] in E. eapply msm_decode_mono; [| |exact E]; apply fok_dec; assumption.
-  - exists sats, sigs. split; [reflexivity|exact Hne].
+  - exists sats, sigs. reflexivity.
   - inversion E1; subst s1 s2. exists f, hdr', s1', s2'. subst x'. repeat split; assumption.
 Qed.
 
